@@ -101,6 +101,8 @@ def _sym_place(f, pl, depth):
             return ("ptr", sym(f, t["a"][0], depth + 1))
         if nm in TRANSPARENT and len(t["a"]) == 1 and c.get("krate") in ("core", "alloc", "std"):
             return sym(f, t["a"][0], depth + 1)
+        if nm in ("cast", "cast_mut", "cast_const") and len(t["a"]) == 1 and c.get("krate") == "core" and "ptr" in str(c.get("def", "")):
+            return sym(f, t["a"][0], depth + 1)      # `p.cast::<U>()` = `p as *const U`
         return ("call", nm, tuple(sym(f, a, depth + 1) for a in t["a"]))
     rv = d["rv"]
     if rv[0] == "use":
@@ -270,6 +272,9 @@ def r2_transpose(ctx, p=None, cfg=None):
                             from_rc = any(pl[0] == 1 for pl in isl["places"])
                             if from_row and from_j and from_rc:
                                 dep = True
+    if not (full and dep):
+        f2, d2 = _transpose_iter_form(p, cfs)
+        full, dep = full or f2, dep or d2
     ctx.ob("R2", "transpose:every-entry-written", full, "every row gets entry j written for j in 0..N" if full else
            "the closure does not write entry j of the row for every j in 0..N (uninitialised entries)", f)
     ctx.ob("R2", "transpose:source-index-depends-on-row-column-and-row-count", dep,
@@ -277,11 +282,50 @@ def r2_transpose(ctx, p=None, cfg=None):
            "the source index does not depend on all of row index, column j and row count: not a transposition", f)
 
 
+def _transpose_iter_form(p, cfs):
+    """`for (j, cell) in row.iter_mut().enumerate() { *cell = source[..] }`: every entry of the row (the closure's
+    element parameter) is written through the loop item; j is the enumerate index."""
+    from .c03 import for_loops
+    full, dep = False, False
+    for cf in cfs:
+        for L in for_loops(cf):
+            t = cf.term(L["header"])
+            src = cf.slice_of_operand(t["a"][0], at=(L["header"], cf.INF))
+            names = {(callee_of(cf.term(b)) or {}).get("name") for b in src["calls"]}
+            if not {"iter_mut", "enumerate"} <= names or names & {"skip", "take", "step_by", "filter", "rev", "skip_while", "take_while"}:
+                continue
+            if 2 not in src["args"] and not any(pl[0] == 2 for pl in src["places"]):
+                continue
+            items = set(L["item_locals"]) | {L["item_local"]}
+            for b2 in L["own_body"]:
+                for s in cf.blocks[b2]["s"]:
+                    if s["k"] != "assign" or len(s["p"]) < 2 or s["p"][-1] != "*":
+                        continue
+                    tgt = cf.backward_slice([s["p"][0]], at=s["_pos"])
+                    if not (tgt["locals"] & items) and s["p"][0] not in items:
+                        continue
+                    full = True
+                    vs = cf.slice_of_operand(s["rv"][1], at=s["_pos"]) if s["rv"][0] == "use" and op_local(s["rv"][1]) is not None else None
+                    if not vs:
+                        continue
+                    idxs = [int(e[2:-1]) for pl in vs["places"] for e in pl[1:] if isinstance(e, str) and e.startswith("[_")]
+                    for bb in vs["calls"]:
+                        tt = cf.term(bb)
+                        if (callee_of(tt) or {}).get("name") in ("index", "get_unchecked") and len(tt["a"]) == 2 and op_local(tt["a"][1]) is not None:
+                            idxs.append(op_local(tt["a"][1]))
+                    for ix in idxs:
+                        isl = cf.backward_slice([ix], at=s["_pos"])
+                        # row index: the outer closure parameter; column: this loop's item; row count: captured
+                        if 2 in isl["args"] and (isl["locals"] & items) and any(pl[0] == 1 for pl in isl["places"]):
+                            dep = True
+    return full, dep
+
+
 def _batch_closure(p, key):
     cs = [c for c in p.closures_of(key) if c.argc == 3 and c.local_ty(3) == "usize"]
     if len(cs) != 1:
         raise AnchorLost("%s: batch closure |batch, batch_offset| not found" % key)
-    return cs[0]
+    return p.fn(cs[0].key)      # private helpers called by the closure are spliced
 
 
 def r3_batch_offsets(ctx, p=None, cfg=None):
@@ -424,6 +468,51 @@ def r5_length_asserts(ctx, p=None, cfg=None):
                "the operands are zipped without asserting a.len() == b.len(): a shorter operand would silently truncate the operation", f, zs[0][1]["sp"]["at"])
 
 
+def r6_every_length(ctx, p=None, cfg=None):
+    """`for every length` includes 0: a write at a constant position of the batch handed to fill_power_series (the
+    first power) must lie behind a test that the batch holds that position."""
+    p = p or ctx.p
+    f = p.fn(MU + "fill_power_series", inline=False)
+    n = 0
+    for bi, b in enumerate(f.blocks):
+        t = b["t"]
+        if b.get("cleanup") or t["k"] != "assert" or t.get("ak") != "BoundsCheck" or len(t.get("ao") or []) != 2:
+            continue
+        iv = sym(f, t["ao"][1])
+        if iv[0] != "k":
+            continue
+        idx = iv[1]
+        n += 1
+        ok = False
+        # (a) `if result.is_empty() { return }` / `if !result.is_empty()`
+        for b2, t2 in f.calls():
+            if (callee_of(t2) or {}).get("name") == "is_empty" and not f.is_cleanup(b2) and sym(f, t2["a"][0]) == ("arg", 1) and idx == 0:
+                for ch in f.bool_checks_of(b2):
+                    if ch["false_edges"] and f.must_cross([bi], cut_edges=ch["false_edges"]):
+                        ok = True
+        # (b) a comparison of result.len() with a constant that excludes lengths <= idx
+        from ..patterns import cmp_sites
+        for s in cmp_sites(f):
+            a, bq = sym(f, s["a"]), sym(f, s["b"])
+            for ln, k, swapped in ((a, bq, False), (bq, a, True)):
+                if ln != ("len", ("arg", 1)) or k[0] != "k":
+                    continue
+                for ch in f.bool_checks_of_local(s["local"]):
+                    for edges, rel in ((ch["true_edges"], s["op"]), (ch["false_edges"], {"Eq": "Ne", "Ne": "Eq", "Lt": "Ge", "Ge": "Lt", "Le": "Gt", "Gt": "Le"}[s["op"]])):
+                        if swapped:
+                            rel = {"Lt": "Gt", "Gt": "Lt", "Le": "Ge", "Ge": "Le"}.get(rel, rel)
+                        holds = (rel == "Gt" and k[1] >= idx) or (rel == "Ge" and k[1] >= idx + 1) or (rel == "Ne" and k[1] == 0 and idx == 0)
+                        if holds and edges and f.must_cross([bi], cut_edges=edges):
+                            ok = True
+        ctx.ob("R6", "fill_power_series:constant-position-%d-guarded" % idx, ok,
+               "the write at position %d lies behind a test that the batch is long enough (length 0 returns an empty series)" % idx if ok else
+               "fill_power_series writes position %d of the batch without testing that it exists: get_power_series(b, 0) panics instead of returning an empty vector" % idx,
+               f, t["sp"]["at"])
+    if n == 0:
+        # no constant-position write at all (e.g. an iterator form): nothing to guard
+        ctx.ob("R6", "fill_power_series:constant-position-guarded", True, "no write at a constant position of the batch", f, nontrivial=False)
+
+
 class _Cfg:
     """the same rules on another build configuration: obligations get the configuration's name."""
     def __init__(self, ctx, cfg):
@@ -451,7 +540,8 @@ def run(ctx):
     ctx.rule("R3", "batch closures start from the batch offset: base.exp(batch_offset) for power series, values[offset..offset + batch.len()] for batch inversion", 3)
     ctx.rule("R4", "serial_batch_inversion: both passes test for ZERO, products skip zeros, ZERO stored for a zero input, one inversion between the passes", 4)
     ctx.rule("R5", "add_in_place / mul_acc: equal lengths asserted before zip", 2)
-    for rid, fn in (("R1", r1_regrouping), ("R2", r2_transpose), ("R3", r3_batch_offsets), ("R4", r4_zero_skipping), ("R5", r5_length_asserts)):
+    ctx.rule("R6", "every length includes 0: the first power is written only into a batch that has a first position", 1)
+    for rid, fn in (("R1", r1_regrouping), ("R2", r2_transpose), ("R3", r3_batch_offsets), ("R4", r4_zero_skipping), ("R5", r5_length_asserts), ("R6", r6_every_length)):
         ctx.guard(rid, fn)
     ctx.assume("field multiplication / inversion / exponentiation are exact (C10); rayon's par_chunks_mut hands out disjoint batches in order (C06)")
     ctx.assume("the element-wise results and the element order of transposition are value-level and decided only through the dependences above")
